@@ -27,6 +27,12 @@ CHECKS = {
  "C16": dict(cat="model_checking", ref="6.C16", engine="function-reference", tech="TLA+ quoting reference and sh word-formation model (ShellQuote.tla) checked by TLC for every name/list state; each state replayed through the real Edge expansion and the real /bin/sh; rspfile clauses by TLC trace validation of engine executions",
              text="Every name of <= 2 bytes, every 3-byte name over the shell-special alphabet and every list of <= 3 hostile names is a TLC state satisfying ShWords(JoinQ(names)) = names; the real $in/$out/$in_newline expansion of each is executed through /bin/sh -c and must give back exactly the names (alarm), equality with the reference text is reported as conformance; response-file monitors run on engine traces.",
              note="Trusted: TLC; /bin/sh (dash) as the shell; the argv helper. The sh model is bound to the real shell by executing every expansion."),
+ "C08": dict(cat="model_checking", ref="6.C08", engine="log-model", tech="TLA+ byte-level model of .ninja_log (BuildLog.tla) model-checked by TLC over all record/tear/append sequences; TLC-exported and random operation sequences replayed on the real BuildLog with real files and validated by TLC (BuildLogTrace.tla)",
+             text="Design level: every sequence of records, tears at any byte and appends behind the tear (bounded alphabet) satisfies the property-level clauses Safe/Complete/Exact for the documented loader. Code level: the same operation alphabet plus recompaction, restat, version changes and long random histories run on the real class; after every load the real table must satisfy the clauses with respect to the ghost history.",
+             note="Trusted: TLC; the clauses of BuildLogRef.tla as the reading of 'at worst out of date'; the harness's truncation of real files. Bounded: 2 outputs x 2 mtimes x 2 commands in the exhaustive part, MaxOps as in the evidence; 256 KiB line limit not modelled."),
+ "C09": dict(cat="model_checking", ref="6.C09", engine="log-model", tech="TLA+ byte-level model of .ninja_deps (DepsLog.tla: ids, padding, checksums, recovery) model-checked by TLC; TLC-exported tear/damage/recompaction sequences and random histories replayed on the real DepsLog and validated by TLC (DepsLogTrace.tla)",
+             text="Design level: TableIsHistory and ReloadAgrees hold in every state of all record/tear/damage sequences over paths of every padding. Code level: after every operation GetDeps of the real class must equal the reference table, files must be cut at the last complete record, reloads must find nothing to cut, recompaction must drop exactly the outputs without deps statement.",
+             note="Trusted: TLC; DepsLogRef.tla as the documented format; the harness's truncation/damage of real files. Bounded: 4 paths (lengths 1-4), 2 mtimes, damage tails from a fixed list in the exhaustive part."),
 }
 
 NOT_YET = "check not built yet (work in progress; see DESIGN.md section 9)"
@@ -45,7 +51,9 @@ def main():
        {"name": "engine-trace-validation", "path": "lib/engine.py", "serves_properties": [i for i in ids if i in CHECKS and i <= "C07"],
         "kind_free_text": "TLC exports scenario families (spec/Families.tla); harness/h1.cc runs them on the real classes under all completion orders; TLC validates every execution against spec/RefTrace.tla (monitors from spec/NinjaRef.tla)"},
        {"name": "function-reference", "path": "lib/fnlib.py", "serves_properties": [i for i in ids if CHECKS.get(i, {}).get("engine") == "function-reference"],
-        "kind_free_text": "TLA+ reference function + laws model-checked by TLC over a bounded input space; every enumerated input exported by TLC and replayed on the real function (harness/fn.cc); recorded random calls validated by a TLC trace spec"}],
+        "kind_free_text": "TLA+ reference function + laws model-checked by TLC over a bounded input space; every enumerated input exported by TLC and replayed on the real function (harness/fn.cc); recorded random calls validated by a TLC trace spec"},
+       {"name": "log-model", "path": "lib/checks.py", "serves_properties": ["C08", "C09"],
+        "kind_free_text": "byte-level TLA+ models of the two log formats model-checked by TLC; operation sequences exported by TLC and executed on the real log classes with real files (harness/logh.cc); every execution validated by a TLC trace spec"}],
      "checks": [],
      "not_applicable": [],
      "notes": "See DESIGN.md. exit 2 from a check means the check itself is broken (never a violation).",
